@@ -8,6 +8,7 @@ From Coq Require Import ZArith NArith List Bool Arith Lia.
 From LLRP Require Import Driver.Supervisor Driver.SupervisorProofs Driver.SupervisorRetry Driver.Registry Driver.RegistryProofs.
 From LLRP Require Import Driver.SupervisorFlight Driver.SupervisorFlightProofs.
 From LLRP Require Import Driver.RegistrySplit Driver.RegistrySplitProofs.
+From LLRP Require Import Driver.AddrUpdate Driver.AddrUpdateProofs.
 Import ListNotations.
 
 (* 1. retries until stopped: after any finite run without Stop, a Dial is enabled — at once, or
@@ -494,3 +495,41 @@ Example C15_readd_during_removal_example :
   let evs := [SE (RCheck 0); SE (REnter 0); SRemoveLookup; SE (RCheck 1); SRemoveStopDone; SE (REnter 1); SE (RExit 0)] in
   reg (sbase (srun false evs)) = Some 1 /\ live (sbase (srun false evs)) = [1] /\ got (sbase (srun false evs)) = [(1, 1); (0, 0)].
 Proof. vm_compute. repeat split; reflexivity. Qed.
+
+(* ------------------------------------------------------------------------------------------
+   "an address change redirects the next attempt to the new address", as EdgeX delivers the change:
+   Driver.UpdateDevice(name, protocols, adminState) -> LLRPDevice.UpdateAddr (Driver/AddrUpdate.v).
+   Addresses are SPELLINGS (what the dialer is asked for); [ep] maps a spelling to the endpoint
+   several spellings may share -- any function.  For every previous state (managed or not, any
+   stored address), every address given, every admin state, whichever way "the same address" is
+   decided for the purpose of bouncing the connection: the next attempt dials exactly the
+   spelling given (every Dial of Supervisor.v reads the stored address: C15_addr_change_redirects). *)
+Theorem C15_update_device_redirects_next_attempt : forall ep s a locked sbe,
+  let s' := update_device (mkAF sbe false false) ep s a locked in
+  next_dial s' = a /\ managed_a s' = true.
+Proof. exact update_device_stores. Qed.
+Print Assumptions C15_update_device_redirects_next_attempt.
+
+(* ... and a change of spelling closes the standing connection, so that attempt is made at once *)
+Theorem C15_update_device_bounces_on_change : forall ep s a locked,
+  managed_a s = true -> a <> stored s ->
+  bounces (update_device aflags_tree ep s a locked) = S (bounces s).
+Proof. exact update_device_bounces. Qed.
+Print Assumptions C15_update_device_bounces_on_change.
+
+(* comparing by endpoint AND returning before the address is stored: two spellings of one endpoint
+   class (here 1 and 2, e.g. one scoped IPv6 address with two zones under an [ep] that forgets the
+   zone): the update is never stored, the next attempt dials the old spelling *)
+Theorem C15_update_device_redirects_compare_before_store_refuted :
+  let ep := fun _ : N => 0%N in
+  next_dial (update_device (mkAF true true false) ep (mkAS true 1%N 0) 2%N false) = 1%N /\
+  next_dial (update_device aflags_tree ep (mkAS true 1%N 0) 2%N false) = 2%N.
+Proof. vm_compute. split; reflexivity. Qed.
+Print Assumptions C15_update_device_redirects_compare_before_store_refuted.
+
+(* an update that is dropped for a managed device whose admin state is Locked *)
+Theorem C15_update_device_redirects_skip_locked_refuted :
+  next_dial (update_device (mkAF false false true) (fun x => x) (mkAS true 1%N 0) 2%N true) = 1%N /\
+  next_dial (update_device aflags_tree (fun x => x) (mkAS true 1%N 0) 2%N true) = 2%N.
+Proof. vm_compute. split; reflexivity. Qed.
+Print Assumptions C15_update_device_redirects_skip_locked_refuted.
